@@ -378,6 +378,76 @@ META = {
         detected_by={"C10": "order_independent, equals_reference_average (minerals lists in both orders)"},
         strengthening=None,
     ),
+    "C11c": dict(
+        summary="voigt_to_elastic_tensor became a Python wrapper memoising results in a module-level dict keyed by the matrix bytes and returning the cached array itself (no copy)",
+        needs="convert M, edit the returned tensor in place (e.g. GPa -> Pa), convert an equal matrix again: the second call returns the edited tensor",
+        detected_before_strengthening=False,
+        detected_by={"C11": "returned_arrays_are_fresh/voigt_to_elastic_tensor"},
+        strengthening="generic fresh-output oracle (call, scramble every returned array in place, call again, compare with a copy of the first result) on the tensors functions, poles/lambert/to_spherical, elasticity_components and voigt_averages",
+    ),
+    "C12c": dict(
+        summary="helper flips each eigenvector so that its largest-magnitude component is positive and the SCCS averaging drops its sign-of-dot-product bookkeeping",
+        needs="a frame in which a symmetry axis has its two largest components nearly equal and opposite in sign (Voigt averages: ~0.4 % of random frames; orthorhombic tensors: 45-degree rotations about a coordinate axis)",
+        detected_before_strengthening=True,
+        detected_by={"C12": "frame_independent_scalars, hexagonal_axis_corotates (hostile rotations incl. pi / signed permutations, several frames per tensor)"},
+        strengthening=None,
+    ),
+    "C13c": dict(
+        summary="finite_strain computes F.F^T into a module-level Fortran-ordered scratch array and calls eigh(overwrite_a=True): the returned axis is a view into module state overwritten by the next call",
+        needs="two finite_strain calls where the axis of the first is used after the second",
+        detected_before_strengthening=True,
+        detected_by={"C13": "finite_strain_subsequent_rotation / finite_strain_equals_svd (the oracle keeps the first axis while it evaluates F.Q and Q.F)"},
+        strengthening=None,
+    ),
+    "C14c": dict(
+        summary="misorientation_hist takes its work arrays from a grow-only module-level cache keyed by the operator count and passes the whole (possibly larger) arrays on: stale pairs of an earlier, larger texture are binned too",
+        needs="an evaluation with N1 grains followed, in the same process or pool worker, by one with N2 < N1 grains for a system with the same number of operators",
+        detected_before_strengthening=True,
+        detected_by={"C14": "single_near_one, triclinic_equals_reference, frame_rotation (the relation shards mix texture sizes in one process); defect model for exempt systems does not reproduce the values"},
+        strengthening=None,
+    ),
+    "C15c": dict(
+        summary="resample_orientations no longer sorts by volume and draws uniformly when frac[0] == frac[-1] ('flat distribution' fast path that assumed sorted input)",
+        needs="a non-uniform snapshot whose first and last grain have exactly equal volume (>= 3 grains), e.g. both at the sliding floor",
+        detected_before_strengthening=True,
+        detected_by={"C15": "post:zero_volume_never_drawn, law:* (duplicates / ties / zeros volume classes)"},
+        strengthening=None,
+    ),
+    "C16c": dict(
+        summary="read_scsv and save_scsv share a module-level csv dialect class whose skipinitialspace flag is set for non-space delimiters and never reset",
+        needs="in one process: any call with a non-space delimiter, then read_scsv of a space-delimited file with an empty cell",
+        detected_before_strengthening=True,
+        detected_by={"C16": "roundtrip_completes (ValueError) -- the generator mixes delimiters within one process"},
+        strengthening=None,
+    ),
+    "C17c": dict(
+        summary="Mineral.save builds its fields lazily (generator) and opens the archive before pulling them: the np.stack shape check of later snapshots runs after meta_<postfix> has been written",
+        needs="save with a postfix of a mineral whose first snapshot is consistent but a later snapshot has the wrong size: ValueError is raised but the archive was created / modified",
+        detected_before_strengthening=True,
+        detected_by={"C17": "rejected_without_writing (directory listing before/after, fault 'ragged')"},
+        strengthening=None,
+    ),
+    "C18c": dict(
+        summary="get_pathline takes its solve_ivp options from a module-level defaults dict through a helper that writes the caller's overrides into that dict",
+        needs="a get_pathline call overriding a solver option (coarse preview), then a call relying on the defaults",
+        detected_before_strengthening=False,
+        detected_by={"C18": "pathline_options_do_not_leak (default request, coarse preview, default request again must be identical)"},
+        strengthening="A / coarse B / A sequence on a quarter of the pathline cases",
+    ),
+    "C19c": dict(
+        summary="parse_config takes its [output] defaults from a module-level dict that is also the fallback for a missing [output] table and is filled in place",
+        needs="two parses in one process of configs without an [output] table and with different phase assemblages",
+        detected_before_strengthening=False,
+        detected_by={"C19": "config_parses / config_defaults_and_values on configs that omit the whole [output] table"},
+        strengthening="a sixth of the generated configurations omit the [output] table altogether",
+    ),
+    "C20c": dict(
+        summary="poles() extracts the two in-plane columns with np.delete(directions, upward, axis=1).T, silently assuming the two reference letters are in ascending order",
+        needs="ref_axes in descending letter order ('yx', 'zx', 'zy')",
+        detected_before_strengthening=True,
+        detected_by={"C20": "poles_equal_reference (all six reference strings)"},
+        strengthening=None,
+    ),
 }
 
 
